@@ -38,6 +38,8 @@ def scenario(kind, cmd):
         step = C('restore', ['--trash-dir', td, '/v/w'], e, stdin=['1'], cwd='/')
         sel = ['x']
     else:
+        # (the volume also has a valid, empty $topdir/.Trash/$uid: .Trash-$uid stays a trash directory of the volume)
+        nodes += [W.d('/v/.Trash', 0o1777), W.d('/v/.Trash/1000', 0o700), W.d('/v/.Trash/1000/files', 0o700), W.d('/v/.Trash/1000/info', 0o700)]
         nodes += K.trashed(td, 'x', 'w/x', '2020-01-02T00:00:00', K.KINDS[kind], 2000)
         nodes += K.trashed(td, 'y', 'w/y', '2020-01-01T00:00:00', 'dir', 2100)
         nodes += K.trashed(td, 'z', 'w/sub/z', '2020-01-03T00:00:00', 'link-dir', 2200)
